@@ -26,6 +26,23 @@ ASSUMPTIONS = ["TEMPO inputs are conditioned (D <= 3.5) and size-coupled as in D
 @st.composite
 def s_case(draw, tier):
     mf = draw(mfgen.mf_spec(tier))
+    # stationary fields (the field and its derivative are bit-identical from step to step) under an explicitly time
+    # dependent Hamiltonian: "zero" = field exactly 0 with an equation of motion proportional to the field,
+    # "frozen" = equation of motion identically 0 with a non-zero field
+    stationary = draw(st.sampled_from([None, None, None, "zero", "frozen"]))
+    if stationary:
+        e = mf["eom"]
+        e.update(c0=[0.0, 0.0], c1=[0.0, 0.0], c3=0.0, c4=0.0, cs=[0.0] * len(mf["systems"]), linear_only=False)
+        if stationary == "zero":
+            mf["a0"] = [0.0, 0.0]
+        else:
+            e.update(kappa=0.0, omega=0.0)
+            if mf["a0"] == [0.0, 0.0]:
+                mf["a0"] = [0.0, 0.25]
+        for sspec in mf["systems"]:
+            if sspec["nu"] == 0.0:
+                sspec["nu"] = 1.0
+        mf["stationary"] = stationary
     dmax = max(s["d"] for s in mf["systems"])
     p = draw(tempogen.params_spec(dmax, tier, n_min=2, n_max=6, eps=[1e-7, 1e-8, 1e-9]))
     baths = [draw(tempogen.bath_spec(s["d"], rotated=False, custom_weight=0.0,
@@ -47,7 +64,8 @@ def run_case(case):
     par = tempogen.build_params(p, subdiv_limit=sl)
     t_end = tempogen.end_time(p, t0)
     td = mfgen.eom_time_dependent(mf)
-    out.nontrivial = td or t0 != 0
+    out.nontrivial = td or t0 != 0 or bool(mf.get("stationary"))
+    out.label("stationary-field=" + str(mf.get("stationary")))
     out.label("eom-time-dependent" if td else "eom-autonomous", "t0!=0" if t0 != 0 else "t0=0",
               f"systems={len(rhos)}", "linear-only" if mf["eom"]["linear_only"] else "general-eom",
               "field-independent-H" if all(s["g"] == 0 for s in mf["systems"]) else "field-dependent-H",
